@@ -49,6 +49,8 @@ class FunTranslator:
                 return e.id if e.id not in self.renames else self.renames[e.id]
             if e.id in self.consts:
                 self.used_consts.add(e.id)
+                if e.id in getattr(self, 'local_consts', {}) and e.id not in self.global_names:
+                    return '(%d)' % self.local_consts[e.id]     # a constant of the function's own module: inlined
                 return e.id
             raise Unsupported('name %s' % e.id)
         if isinstance(e, ast.BinOp):
@@ -218,6 +220,8 @@ class FunTranslator:
 
     def function(self, fn, kind, coq_name=None):
         self.kind = kind
+        self.fname = coq_name or fn.name
+        self.global_names = getattr(self, 'global_names', set())
         self.renames = {}
         args = [a.arg for a in fn.args.args]
         if fn.args.vararg or fn.args.kwarg or fn.args.kwonlyargs or fn.args.defaults:
@@ -316,6 +320,48 @@ FUNCTIONS = [
 ]
 
 
+def local_int_constants(tree, known):
+    """module-level `NAME = <integer expression over literals and known constants>` of the function's own source file"""
+    out = {}
+    for n in tree.body:
+        if isinstance(n, ast.Assign) and len(n.targets) == 1 and isinstance(n.targets[0], ast.Name):
+            try:
+                ns = dict(known)
+                ns.update(out)
+                v = eval(compile(ast.Expression(n.value), '<const>', 'eval'), {'__builtins__': {'pow': pow, 'min': min, 'max': max}}, ns)
+            except Exception:
+                continue
+            if isinstance(v, int) and not isinstance(v, bool):
+                out[n.targets[0].id] = v
+    return out
+
+
+# the translation of the four functions as of the pinned source: emitted (and flagged) when a function leaves the
+# translatable fragment, so that the bridge lemmas still build; the tie for that function is then the behavioural
+# correspondence only (recorded as translator_fallback in the evidence)
+REFERENCE = {
+    'get_block_subsidy': '''Definition get_block_subsidy (height : Z) : Z :=
+  let halvings := (height / SUBSIDY_HALVING_INTERVAL) in
+  (if (halvings >=? (64)) then (0)
+  else (INITIAL_SUBSIDY / ((2) ^ halvings))).
+''',
+    'validate_sashimi_range': '''Definition validate_sashimi_range (value : Z) : bool :=
+  (if (negb (((0) <? value) && (value <=? MAX_SASHIMI))) then false
+  else true).
+''',
+    'calculate_new_target': '''Definition calculate_new_target (previous_target : list Z) (actual_time_passed : Z) : list Z :=
+  let i_previous_target := (be_decZ previous_target) in
+  let result := ((i_previous_target * actual_time_passed) / DESIRED_TARGET_READJUSTMENT_TIMESPAN) in
+  let result := (if (result >? (((2) ^ ((32) * (8))) - (1))) then (((2) ^ ((32) * (8))) - (1)) else result) in
+  (be_encZ (32) result).
+''',
+    'select_block_height': '''Definition select_block_height (input_hash : list Z) (current_height : Z) : Z :=
+  let base := (be_decZ (sliceZ input_hash 0 (8))) in
+  (base mod current_height).
+''',
+}
+
+
 def gen_functions(repo, out, consts):
     lines = [HEADER % 'skepticoin/consensus.py, skepticoin/pow.py', PRELUDE_FUNS]
     status = {}
@@ -324,15 +370,19 @@ def gen_functions(repo, out, consts):
         try:
             tree = module_ast(os.path.join(repo, src))
             fn = find_function(tree, name)
-            tr = FunTranslator(int_consts, bparams)
+            local = local_int_constants(tree, int_consts)
+            tr = FunTranslator(dict(int_consts, **local), bparams)
+            tr.local_consts = local
+            tr.global_names = set(int_consts)
             text = tr.function(fn, kind, cname)
             lines.append('(* %s:%d %s *)' % (src, fn.lineno, name))
             lines.append(text)
             lines.append('Definition translated_%s : bool := true.\n' % cname)
             status[name] = 'translated'
         except (Unsupported, SyntaxError, OSError) as e:
-            lines.append('(* %s %s: NOT TRANSLATED (%s); hand model + behavioural correspondence used instead *)'
-                         % (src, name, e))
+            lines.append('(* %s %s: NOT TRANSLATED (%s): the reference translation is emitted so that the bridge lemmas build;\n'
+                         '   this function is tied by behavioural correspondence only in this run *)' % (src, name, e))
+            lines.append(REFERENCE[name])
             lines.append('Definition translated_%s : bool := false.\n' % cname)
             status[name] = 'fallback: %s' % e
     write_if_changed(os.path.join(out, 'Gen_Functions.v'), '\n'.join(lines) + '\n')
